@@ -248,7 +248,10 @@ async fn resolve_combined_recursive<'a>(
     {
         Ok(resolved) => {
             let soa_rr = resolved.soa_rr().cloned();
-            rrs.append(&mut resolved.rrs());
+            // an upstream reply can carry several links of an alias chain
+            // at once, and so lead back to a name we have already followed:
+            // don't repeat those records.
+            prioritising_merge(&mut rrs, resolved.rrs());
             Ok(ResolvedRecord::NonAuthoritative { rrs, soa_rr })
         }
         Err(_) => Err(ResolutionError::DeadEnd { question }),
